@@ -11,6 +11,10 @@ CHECKS = {
          "proof: `_slice_indices` (translated from the current source on every run) is proved equal to CPython's slice.indices for all start/stop/step/len; the Python fallbacks of the key helpers, `_parse_batch_size` and the two `_values_list/_items_list` branches are proved equal to their eager/native twins for all inputs. Partial for whole programs: dynamo/inductor are runtime, so compiled==eager on programs is differential evidence.",
          "Trusted: Lean kernel (axioms propext/Classical.choice/Quot.sound only, audited each run); py2lean translator and hand models Model/Key.lean, Model/Compile.lean, validated each run against the real Python and the freshly compiled C++ on the property's grids; SliceSpec = transcription of CPython, validated against slice.indices. Not modelled: dynamo tracing, inductor.",
          "DESIGN.md §6 C18"),
+ "C13": ("Lean 4 proof over an executable model of _set_tensor_dict/_to_module/_from_module/__enter__/__exit__ (heap of modules with sharing, programs of nested with-blocks with raise), tied to the source by ordered-state correspondence on random module graphs and programs; identity-snapshot and functional_call oracles on real layers",
+         "proof: 14 kernel-checked theorems — swap involution and restoration for all module graphs (shared submodules, tied tensors), restoration after any nesting of with-blocks with an exception at any point, from_module exactness — about a hand-written model that is compared with the library on every run (ordered dict contents after every swap / with-program). Partial: the model has identities, not values: inplace=True values, use_state_dict, custom __setattr__, lazy parameters, TensorDictParams/TensorDictModule wrappers and vmap are covered by the oracle run on real layers only.",
+         "Trusted: Lean kernel (standard axioms, audited each run), the hand transcription Model/C13Module.lean (validated by 3 correspondence streams, ~3600 cases per quick run), torch's Module registration and functional_call as the oracle, the harness. Two recorded findings (known_findings.json: shared submodule given two different sub-tensordicts; inplace with tied tensors); four defects repaired by fix: commits.",
+         "DESIGN.md §6 C13"),
 }
 
 REASON_PENDING = "check not built yet in this round (build order in DESIGN.md §10); this is a statement about progress, not that the technique cannot apply"
